@@ -35,7 +35,7 @@ func globalLoad(v ssa.Value) *ssa.Global {
 // globalWrittenOnlyInInit checks that g has no store outside its package initialiser.
 func globalWrittenOnlyInInit(p *an.Prog, g *ssa.Global) (bool, string) {
 	for _, fn := range p.AllRepoFuncs() {
-		for _, b := range fn.Blocks {
+		for _, b := range an.ScanBlocks(fn) {
 			for _, ins := range b.Instrs {
 				if st, ok := ins.(*ssa.Store); ok && st.Addr == ssa.Value(g) {
 					return false, an.FuncName(fn) + " at " + p.Pos(st.Pos())
@@ -62,7 +62,7 @@ func c07(c *an.Check) {
 	wr := one(pkgFuncsWhere(p, "transport/controller", func(f *ssa.Function) bool { return callsAny(f, an.X(pblite, "", "AppendVarint")) }))
 	var helper *ssa.Function
 	if rd != nil {
-		for _, b := range rd.Blocks {
+		for _, b := range an.ScanBlocks(rd) {
 			for _, ins := range b.Instrs {
 				if call, ok := ins.(*ssa.Call); ok {
 					if f, ok := call.Call.Value.(*ssa.Function); ok && f.Pkg == rd.Pkg && len(f.Params) > 0 && len(call.Call.Args) > 0 && an.IsParam(call.Call.Args[0], 0) {
@@ -116,7 +116,7 @@ func c07(c *an.Check) {
 	// (a3) helper: reads only into buf[n:], loops until n>=min, returns read errors
 	okH := false
 	var readCalls []*ssa.Call
-	for _, b := range helper.Blocks {
+	for _, b := range an.ScanBlocks(helper) {
 		for _, ins := range b.Instrs {
 			if isInvokeOf(ins, "io.Reader", "Read") {
 				readCalls = append(readCalls, ins.(*ssa.Call))
@@ -175,7 +175,7 @@ func c07(c *an.Check) {
 		// the initial value is a sane constant
 		okInit := false
 		if init := rd.Pkg.Func("init"); init != nil {
-			for _, b := range init.Blocks {
+			for _, b := range an.ScanBlocks(init) {
 				for _, ins := range b.Instrs {
 					if s, ok := ins.(*ssa.Store); ok && s.Addr == ssa.Value(limit) {
 						if k, ok := s.Val.(*ssa.Const); ok && k.Value != nil && k.Uint64() > 0 && k.Uint64() <= 1<<24 {
@@ -207,7 +207,7 @@ func c07(c *an.Check) {
 		nb := an.ErrResult(cv[0], 1)
 		// copy(headerBuf, b[k:]) and n = len(b)-k with the same k deriving from the consumed-bytes count
 		var cp *ssa.Call
-		for _, b := range rd.Blocks {
+		for _, b := range an.ScanBlocks(rd) {
 			for _, ins := range b.Instrs {
 				if cc, ok := ins.(*ssa.Call); ok && an.BuiltinName(cc) == "copy" && cc.Call.Args[0] == hc[1].Call.Args[3] {
 					cp = cc
@@ -318,7 +318,7 @@ func c07(c *an.Check) {
 		f := p.Func("transport/controller", "mountedLink", m)
 		ok := false
 		if f != nil {
-			for _, b := range f.Blocks {
+			for _, b := range an.ScanBlocks(f) {
 				for _, ins := range b.Instrs {
 					if call, isCall := ins.(*ssa.Call); isCall && call.Call.IsInvoke() && call.Call.Method.Name() == m {
 						ok = true
